@@ -236,7 +236,7 @@ func c10verifyOne(c *c10case, methods []auth.VerifyMethod, k c10conc) (accepted 
 	cu, cp, cr, cn := user, pass, realm, nonce
 	realMethod, cm, curl := base.Describe, base.Describe, track
 	switch c.Pert {
-	case "none", "alg":
+	case "none", "alg", "noalg":
 	case "user":
 		cu = c10users[k.user2]
 	case "pass":
@@ -293,6 +293,15 @@ func c10verifyOne(c *c10case, methods []auth.VerifyMethod, k c10conc) (accepted 
 			flipped = headers.AuthAlgorithmMD5
 		}
 		h.Algorithm = &flipped
+		av = h.Marshal()
+	}
+
+	if c.Pert == "noalg" && c.Sent != "basic" {
+		var h headers.Authorization
+		if err = h.Unmarshal(av); err != nil {
+			return false, "", fmt.Errorf("c10: the Sender's own Authorization does not parse: %w", err)
+		}
+		h.Algorithm = nil // left out: reads as MD5
 		av = h.Marshal()
 	}
 
